@@ -991,6 +991,9 @@ def m_C15(v):
     for i, k in enumerate(v.kind):
         if k == "deploy":
             owner = int(v.ops[i][0].split()[2])
+        if k == "call" and v.R[i]["st"] != "ok" and v.call[i]["caller"] == owner \
+                and "user accounts" in v.R[i].get("msg", "") and v.call[i]["ep"] in ("select", "distribute"):
+            out.append((i, f"C15 the owner (a contract account) was refused {v.call[i]['ep']} as a non-user caller"))
         if not v.accepted(i):
             continue
         c = v.call[i]
